@@ -18,7 +18,7 @@ package dt
 
 // wf(l): well-formedness of an initialised list. Forward links, backward
 // links, ownership, Len and the view all describe the same sequence.
-//@ pred wf(l *List) = l != nil && l.root != nil && allocated(l.root) && l.root.list == l && !l.root.ok
+//@ pred wf(l *List) = mark(l) && l != nil && l.root != nil && allocated(l.root) && l.root.list == l && !l.root.ok
 //@ |  && len(l.elems) >= 0 && l.length == len(l.elems)
 //@ |  && (len(l.elems) == 0 ==> l.root.next == l.root && l.root.prev == l.root)
 //@ |  && (len(l.elems) > 0 ==> l.root.next == l.elems[0] && l.root.prev == l.elems[len(l.elems) - 1] && cast(l.elems[0], "*Element").prev == l.root && cast(l.elems[len(l.elems) - 1], "*Element").next == l.root)
@@ -40,7 +40,7 @@ package dt
 //@   ghostset e.list.elems = insert(old(e.list.elems), pos(e.list, e), new)
 //@   ghostset e.list.lastIns = old(pos(e.list, e))
 //@   ghostall Element.idx(x) = x == new ? pos(e.list, e) : (x.list == e.list && x != e.list.root && x.idx >= pos(e.list, e) ? x.idx + 1 : x.idx)
-//@   ensures others: forall m: List :: m != old(e.list) && old(wf(m)) ==> wf(m) && m.elems == old(m.elems)
+//@   ensures others: forall m: List :: withtrig(mark(m), m != old(e.list) && old(wf(m)) ==> wf(m) && m.elems == old(m.elems))
 //@   ensures wf(e.list) && new.list == e.list
 //@   ensures e.list.elems == insert(old(e.list.elems), old(pos(e.list, e)), new) && e.list.lastIns == old(pos(e.list, e))
 
@@ -50,7 +50,7 @@ package dt
 //@   modifies e.list.length, e.list, e.prev.next, e.next.prev, e.list.elems, e.list.lastIns, Element.idx
 //@   ghostset old(e.list).elems = remove(old(e.list.elems), old(e.idx))
 //@   ghostall Element.idx(x) = old(x.list) == old(e.list) && x != old(e.list.root) && old(x.idx) > old(e.idx) ? old(x.idx) - 1 : old(x.idx)
-//@   ensures others: forall m: List :: m != old(e.list) && old(wf(m)) ==> wf(m) && m.elems == old(m.elems)
+//@   ensures others: forall m: List :: withtrig(mark(m), m != old(e.list) && old(wf(m)) ==> wf(m) && m.elems == old(m.elems))
 //@   ensures e.list == nil && wf(old(e.list))
 //@   ensures old(e.list).elems == remove(old(e.list.elems), old(e.idx))
 
@@ -77,7 +77,7 @@ package dt
 //@   props C16
 //@   requires wf(l) && it != nil && allocated(it) && (it.list != nil ==> wf(it.list))
 //@   modifies l.length, it.list, it.prev.next, it.next.prev, l.elems, l.lastIns, Element.idx
-//@   ensures others: forall m: List :: m != l && m != old(it.list) && old(wf(m)) ==> wf(m) && m.elems == old(m.elems)
+//@   ensures others: forall m: List :: withtrig(mark(m), m != l && m != old(it.list) && old(wf(m)) ==> wf(m) && m.elems == old(m.elems))
 //@   ensures wf(l)
 //@   ensures removed: old(member(l, it)) ==> result == it && it.list == nil && l.elems == remove(old(l.elems), old(it.idx))
 //@   ensures rejected: !old(member(l, it)) ==> fresh(result) && !result.ok && result.list == nil && l.elems == old(l.elems) && it.list == old(it.list)
@@ -87,10 +87,11 @@ package dt
 //@   requires l == nil || lwf(l)
 //@   panics when l == nil
 //@   modifies l.root, l.length, Element.list, Element.next, Element.prev, l.elems, l.lastIns, Element.idx
-//@   ensures others: forall m: List :: m != l && old(wf(m)) ==> wf(m) && m.elems == old(m.elems)
+//@   ensures others: forall m: List :: withtrig(mark(m), m != l && old(wf(m)) ==> wf(m) && m.elems == old(m.elems))
 //@   ensures wf(l)
 //@   ensures nonempty: len(old(l.elems)) > 0 ==> result == old(l.elems[0]) && result.list == nil && l.elems == old(l.elems)[1:]
-//@   ensures detached: forall e: Element :: old(allocated(e)) && old(e.list) != l ==> e.list == old(e.list)
+//@   ensures stay: forall e: Element :: old(allocated(e)) && e != result ==> e.list == old(e.list)
+//@   ensures old(l.root) != nil ==> l.root == old(l.root)
 //@   ensures empty: len(old(l.elems)) == 0 ==> fresh(result) && !result.ok && len(l.elems) == 0
 
 //@ func (*List).PopBack
@@ -98,10 +99,11 @@ package dt
 //@   requires l == nil || lwf(l)
 //@   panics when l == nil
 //@   modifies l.root, l.length, Element.list, Element.next, Element.prev, l.elems, l.lastIns, Element.idx
-//@   ensures others: forall m: List :: m != l && old(wf(m)) ==> wf(m) && m.elems == old(m.elems)
+//@   ensures others: forall m: List :: withtrig(mark(m), m != l && old(wf(m)) ==> wf(m) && m.elems == old(m.elems))
 //@   ensures wf(l)
 //@   ensures nonempty: len(old(l.elems)) > 0 ==> result == old(l.elems[len(l.elems) - 1]) && result.list == nil && l.elems == old(l.elems)[:len(old(l.elems)) - 1]
-//@   ensures detached: forall e: Element :: old(allocated(e)) && old(e.list) != l ==> e.list == old(e.list)
+//@   ensures stay: forall e: Element :: old(allocated(e)) && e != result ==> e.list == old(e.list)
+//@   ensures old(l.root) != nil ==> l.root == old(l.root)
 //@   ensures empty: len(old(l.elems)) == 0 ==> fresh(result) && !result.ok && len(l.elems) == 0
 
 //@ func (*List).Front
@@ -126,7 +128,7 @@ package dt
 //@   props C16
 //@   requires e != nil && allocated(e) && anchored(e) && (new != nil ==> allocated(new) && new != e && (new.list != nil ==> wf(new.list)))
 //@   modifies e.list.length, new.list, new.prev, new.next, e.next, e.next.prev, e.list.elems, e.list.lastIns, Element.idx
-//@   ensures others: forall m: List :: m != old(e.list) && old(wf(m)) ==> wf(m) && m.elems == old(m.elems)
+//@   ensures others: forall m: List :: withtrig(mark(m), m != old(e.list) && old(wf(m)) ==> wf(m) && m.elems == old(m.elems))
 //@   ensures rejected: (new == nil || !old(new.ok) || old(e.list) == nil || old(new.list) != nil) ==> result == e && (old(e.list) != nil ==> e.list.elems == old(e.list.elems) && wf(e.list)) && (new != nil ==> new.list == old(new.list) && new.next == old(new.next) && new.prev == old(new.prev))
 //@   ensures accepted: !(new == nil || !old(new.ok) || old(e.list) == nil || old(new.list) != nil) ==> result == new && wf(e.list) && new.list == e.list && e.list.elems == insert(old(e.list.elems), old(pos(e.list, e)), new) && e.list.lastIns == old(pos(e.list, e))
 
@@ -135,7 +137,7 @@ package dt
 //@   requires l == nil || lwf(l)
 //@   panics when l == nil
 //@   modifies l.root, l.length, Element.list, Element.next, Element.prev, l.elems, l.lastIns, Element.idx
-//@   ensures others: forall m: List :: m != l && old(wf(m)) ==> wf(m) && m.elems == old(m.elems)
+//@   ensures others: forall m: List :: withtrig(mark(m), m != l && old(wf(m)) ==> wf(m) && m.elems == old(m.elems))
 //@   ensures wf(l) && len(l.elems) == len(old(l.elems)) + 1 && l.elems[:len(old(l.elems))] == old(l.elems)
 //@   ensures cast(l.elems[len(l.elems) - 1], "*Element").item == it && fresh(l.elems[len(l.elems) - 1]) && l.lastIns == len(old(l.elems))
 
@@ -144,7 +146,7 @@ package dt
 //@   requires l == nil || lwf(l)
 //@   panics when l == nil
 //@   modifies l.root, l.length, Element.list, Element.next, Element.prev, l.elems, l.lastIns, Element.idx
-//@   ensures others: forall m: List :: m != l && old(wf(m)) ==> wf(m) && m.elems == old(m.elems)
+//@   ensures others: forall m: List :: withtrig(mark(m), m != l && old(wf(m)) ==> wf(m) && m.elems == old(m.elems))
 //@   ensures wf(l) && len(l.elems) == len(old(l.elems)) + 1 && l.elems[1:] == old(l.elems)
 //@   ensures cast(l.elems[0], "*Element").item == it && fresh(l.elems[0]) && l.lastIns == 0
 
@@ -153,7 +155,7 @@ package dt
 //@   props C16
 //@   requires e != nil && allocated(e) && anchored(e)
 //@   modifies e.list.length, e.list, e.prev.next, e.next.prev, e.list.elems, e.list.lastIns, Element.idx
-//@   ensures others: forall m: List :: m != old(e.list) && old(wf(m)) ==> wf(m) && m.elems == old(m.elems)
+//@   ensures others: forall m: List :: withtrig(mark(m), m != old(e.list) && old(wf(m)) ==> wf(m) && m.elems == old(m.elems))
 //@   ensures removed: old(e.list) != nil && old(e.list.root) != e ==> result == true && e.list == nil && wf(old(e.list)) && old(e.list).elems == remove(old(e.list.elems), old(e.idx))
 //@   ensures rejected: !(old(e.list) != nil && old(e.list.root) != e) ==> result == false && e.list == old(e.list) && (e.list != nil ==> wf(e.list) && e.list.elems == old(e.list.elems))
 
@@ -256,11 +258,15 @@ package dt
 //@   requires l != nil && lwf(l) && input != nil && lwf(input) && l != input
 //@   modifies l.root, List.length, Element.list, Element.next, Element.prev, List.elems, List.lastIns, Element.idx, input.root
 //@   ensures lwf(l) && lwf(input) && l.elems == old(l.elems) + old(input.elems) && len(input.elems) == 0
-//@   ensures len(old(input.elems)) > 0 ==> wf(l) && wf(input)
+//@   ensures (len(old(input.elems)) > 0 || old(wf(l)) ==> wf(l)) && (len(old(input.elems)) > 0 || old(wf(input)) ==> wf(input))
+//@   ensures others: forall m: List :: withtrig(mark(m), m != l && m != input && old(wf(m)) ==> wf(m) && m.elems == old(m.elems))
+//@   ensures lists: forall e: Element :: old(allocated(e)) ==> e.list == (old(member(input, e)) ? l : old(e.list))
+//@   loop 1 invariant forall e: Element :: old(allocated(e)) && !(e == elem && elem.ok) ==> (old(member(input, e)) ? (e.list == input || e.list == l) : e.list == old(e.list))
 //@   loop 1 invariant wf(l) && wf(input) && l != input && elem != nil && back != nil && back == (len(l.elems) > 0 ? l.elems[len(l.elems) - 1] : l.root)
 //@   loop 1 invariant 0 <= len(input.elems) && len(input.elems) <= len(old(input.elems)) && input.elems == old(input.elems)[len(old(input.elems)) - len(input.elems):]
 //@   loop 1 invariant elem.ok ==> allocated(elem) && elem.list == nil && elem != l.root && elem != input.root && len(input.elems) < len(old(input.elems)) && elem == old(input.elems)[len(old(input.elems)) - len(input.elems) - 1] && l.elems == old(l.elems) + old(input.elems)[:len(old(input.elems)) - len(input.elems) - 1]
 //@   loop 1 invariant !elem.ok ==> len(input.elems) == 0 && l.elems == old(l.elems) + old(input.elems)
+//@   loop 1 invariant forall m: List :: withtrig(mark(m), m != l && m != input && old(wf(m)) ==> wf(m) && m.elems == old(m.elems))
 //@   loop 1 decreases len(input.elems) + (elem.ok ? 1 : 0)
 
 // ---------------------------------------------------------------------------
@@ -277,11 +283,75 @@ package dt
 //@   modifies list.root, List.length, Element.list, Element.next, Element.prev, List.elems, List.lastIns, Element.idx
 //@   ensures fresh(result) && wf(result) && wf(list)
 //@   ensures result.elems == old(list.elems)[:len(old(list.elems)) - len(old(list.elems)) / 2] && list.elems == old(list.elems)[len(old(list.elems)) - len(old(list.elems)) / 2:]
-//@   ensures others: forall m: List :: m != list && old(wf(m)) ==> wf(m) && m.elems == old(m.elems)
+//@   ensures others: forall m: List :: withtrig(mark(m), m != list && old(wf(m)) ==> wf(m) && m.elems == old(m.elems))
+//@   ensures stay: list.root == old(list.root) && (forall e: Element :: old(allocated(e)) && !old(member(list, e)) ==> e.list == old(e.list))
+//@   ensures only: forall e: Element :: old(allocated(e)) && (member(list, e) || member(result, e)) ==> old(member(list, e))
+//@   ensures members: forall e: Element :: old(allocated(e)) && old(member(list, e)) ==> member(list, e) || member(result, e)
+//@   loop 1 invariant forall e: Element :: old(allocated(e)) && old(member(list, e)) ==> member(list, e) || member(out, e)
+//@   loop 1 invariant list.root == old(list.root) && (forall e: Element :: old(allocated(e)) && !old(member(list, e)) ==> e.list == old(e.list))
+//@   loop 1 invariant forall e: Element :: old(allocated(e)) && (member(list, e) || member(out, e)) ==> old(member(list, e))
 //@   loop 1 invariant wf(list) && wf(out) && fresh(out) && out != list && total == len(old(list.elems)) && len(list.elems) >= total / 2 && len(list.elems) <= total
 //@   loop 1 invariant out.elems == old(list.elems)[:total - len(list.elems)] && list.elems == old(list.elems)[total - len(list.elems):]
-//@   loop 1 invariant forall m: List :: m != list && m != out && old(wf(m)) ==> wf(m) && m.elems == old(m.elems)
+//@   loop 1 invariant forall m: List :: withtrig(mark(m), m != list && m != out && old(wf(m)) ==> wf(m) && m.elems == old(m.elems))
 //@   loop 1 decreases len(list.elems)
+
+// merge: both inputs are drained into a fresh list that holds exactly their
+// elements. mergeSort: the result holds exactly the elements of its input (a
+// list shorter than two is returned as it is, a longer one is drained into a
+// fresh list). SortMerge: the receiver itself holds its previous elements
+// afterwards and is well-formed ("the list remains fully usable").
+// swo: the part of "strict weak ordering" the proofs use (asymmetry and negative
+// transitivity; transitivity follows). sortedAll: no element is lt an earlier one.
+//@ pred swo(lt cmp.LessThan) = (forall x: int, y: int :: apply(lt, x, y) ==> !apply(lt, y, x)) && (forall x: int, y: int, z: int :: !apply(lt, x, y) && !apply(lt, y, z) ==> !apply(lt, x, z))
+//@ pred sortedAll(l *List, lt cmp.LessThan) = forall p: int, q: int :: 0 <= p && p < q && q < len(l.elems) ==> !apply(lt, cast(l.elems[q], "*Element").item, cast(l.elems[p], "*Element").item)
+// above(l, o, lt): no element of l is lt an element of o
+//@ pred above(l *List, o *List, lt cmp.LessThan) = forall i: int, j: int :: 0 <= i && i < len(o.elems) && 0 <= j && j < len(l.elems) ==> !apply(lt, cast(l.elems[j], "*Element").item, cast(o.elems[i], "*Element").item)
+//@ func merge
+//@   props C17
+//@   requires lt != nil && a != nil && b != nil && a != b && wf(a) && wf(b)
+//@   requires swo(lt) && sortedAll(a, lt) && sortedAll(b, lt)
+//@   ensures sorted: sortedAll(result, lt)
+//@   loop 1 invariant sortedAll(a, lt)
+//@   loop 1 invariant sortedAll(b, lt)
+//@   loop 1 invariant sortedAll(out, lt)
+//@   loop 1 invariant above(a, out, lt)
+//@   loop 1 invariant above(b, out, lt)
+//@   modifies List.root, List.length, Element.list, Element.next, Element.prev, List.elems, List.lastIns, Element.idx
+//@   ensures fresh(result) && wf(result) && wf(a) && wf(b) && len(a.elems) == 0 && len(b.elems) == 0
+//@   ensures size: len(result.elems) == len(old(a.elems)) + len(old(b.elems))
+//@   ensures stay: forall e: Element :: old(allocated(e)) && !old(member(a, e)) && !old(member(b, e)) ==> e.list == old(e.list)
+//@   ensures only: forall e: Element :: old(allocated(e)) && member(result, e) ==> old(member(a, e)) || old(member(b, e))
+//@   ensures members: forall e: Element :: old(allocated(e)) && (old(member(a, e)) || old(member(b, e))) ==> member(result, e)
+//@   ensures others: forall m: List :: withtrig(mark(m), m != a && m != b && old(wf(m)) ==> wf(m) && m.elems == old(m.elems))
+//@   loop 1 invariant wf(a) && wf(b) && wf(out) && fresh(out) && a != b && a.root == old(a.root) && b.root == old(b.root)
+//@   loop 1 invariant forall e: Element :: old(allocated(e)) && !old(member(a, e)) && !old(member(b, e)) ==> e.list == old(e.list)
+//@   loop 1 invariant forall e: Element :: old(allocated(e)) ==> (member(a, e) ==> old(member(a, e))) && (member(b, e) ==> old(member(b, e))) && (member(out, e) ==> old(member(a, e)) || old(member(b, e)))
+//@   loop 1 invariant len(out.elems) + len(a.elems) + len(b.elems) == len(old(a.elems)) + len(old(b.elems))
+//@   loop 1 invariant forall e: Element :: old(allocated(e)) && (old(member(a, e)) || old(member(b, e))) ==> member(out, e) || member(a, e) || member(b, e)
+//@   loop 1 invariant forall m: List :: withtrig(mark(m), m != a && m != b && m != out && old(wf(m)) ==> wf(m) && m.elems == old(m.elems))
+//@   loop 1 decreases len(a.elems) + len(b.elems)
+
+//@ func mergeSort
+//@   props C17
+//@   requires lt != nil && head != nil && wf(head) && swo(lt)
+//@   ensures sorted: sortedAll(result, lt)
+//@   modifies List.root, List.length, Element.list, Element.next, Element.prev, List.elems, List.lastIns, Element.idx
+//@   ensures wf(result) && len(result.elems) == len(old(head.elems))
+//@   ensures short: len(old(head.elems)) < 2 ==> result == old(head) && result.elems == old(head.elems)
+//@   ensures long: len(old(head.elems)) >= 2 ==> fresh(result) && wf(old(head)) && len(old(head).elems) == 0
+//@   ensures members: forall e: Element :: old(allocated(e)) && old(member(head, e)) ==> member(result, e)
+//@   ensures stay: forall e: Element :: old(allocated(e)) && !old(member(head, e)) ==> e.list == old(e.list)
+//@   ensures only: forall e: Element :: old(allocated(e)) && member(result, e) ==> old(member(head, e))
+//@   ensures others: forall m: List :: withtrig(mark(m), m != old(head) && old(wf(m)) ==> wf(m) && m.elems == old(m.elems))
+
+//@ func (*List).SortMerge
+//@   props C17 C18
+//@   requires l != nil && wf(l) && lt != nil && swo(lt)
+//@   ensures sorted: sortedAll(l, lt)
+//@   modifies List.root, List.length, Element.list, Element.next, Element.prev, List.elems, List.lastIns, Element.idx
+//@   ensures wf(l) && len(l.elems) == len(old(l.elems))
+//@   ensures members: forall e: Element :: old(allocated(e)) && old(member(l, e)) ==> member(l, e)
+//@   ensures others: forall m: List :: withtrig(mark(m), m != l && old(wf(m)) ==> wf(m) && m.elems == old(m.elems))
 
 // ---------------------------------------------------------------------------
 // Set (C18): hash index (a Go map from value to its order element, nil when the
@@ -386,17 +456,17 @@ package dt
 //@   ensures bij: forall k: int :: 0 <= k && k < len(l.elems) ==> 0 <= sortinv(k) && sortinv(k) < len(l.elems) && sortperm(sortinv(k)) == k && sortinv(sortperm(k)) == k
 //@   ensures sorted: forall p: int, q: int :: 0 <= p && p < q && q < len(l.elems) ==> !apply(lt, cast(l.elems[q], "*Element").item, cast(l.elems[p], "*Element").item)
 //@   ensures stable: forall p: int, q: int :: 0 <= p && p < q && q < len(l.elems) && !apply(lt, cast(l.elems[p], "*Element").item, cast(l.elems[q], "*Element").item) ==> sortperm(p) < sortperm(q)
-//@   ensures others: forall m: List :: m != l && old(wf(m)) ==> wf(m) && m.elems == old(m.elems)
+//@   ensures others: forall m: List :: withtrig(mark(m), m != l && old(wf(m)) ==> wf(m) && m.elems == old(m.elems))
 //@   loop 1 invariant wf(l)
 //@   loop 1 invariant len(elems) + len(l.elems) == len(old(l.elems))
 //@   loop 1 invariant l.elems == old(l.elems)[len(elems):] && fresh(backing(elems))
 //@   loop 1 invariant forall k: int :: 0 <= k && k < len(elems) ==> elems[k] == old(l.elems)[k] && elems[k] != nil && allocated(elems[k]) && elems[k].list == nil && elems[k].ok
 //@   loop 1 invariant forall a: int, b: int :: withmtrig(elems[a], elems[b], 0 <= a && a < b && b < len(elems) ==> elems[a] != elems[b])
-//@   loop 1 invariant forall m: List :: m != l && old(wf(m)) ==> wf(m) && m.elems == old(m.elems)
+//@   loop 1 invariant forall m: List :: withtrig(mark(m), m != l && old(wf(m)) ==> wf(m) && m.elems == old(m.elems))
 //@   loop 1 decreases len(l.elems)
 //@   loop 2 invariant wf(l)
 //@   loop 2 invariant 0 - 1 <= rangeindex && rangeindex < len(elems) && len(l.elems) == rangeindex + 1 && len(elems) == len(old(l.elems))
 //@   loop 2 invariant forall k: int :: 0 <= k && k <= rangeindex ==> l.elems[k] == elems[k]
 //@   loop 2 invariant forall k: int :: rangeindex < k && k < len(elems) ==> elems[k] != nil && allocated(elems[k]) && elems[k].list == nil && elems[k].ok
 //@   loop 2 invariant forall a: int, b: int :: withmtrig(elems[a], elems[b], 0 <= a && a < b && b < len(elems) ==> elems[a] != elems[b])
-//@   loop 2 invariant forall m: List :: m != l && old(wf(m)) ==> wf(m) && m.elems == old(m.elems)
+//@   loop 2 invariant forall m: List :: withtrig(mark(m), m != l && old(wf(m)) ==> wf(m) && m.elems == old(m.elems))
